@@ -14,9 +14,9 @@ if c.replay:
 
 S = [1, 2]
 qs = [query(1, 3, S, crit('one', leaf()))]
-for l in (leaf('eq', 'a', (1,)), leaf('ne', 'b', (0,)), leaf('lt', 'a', (2,)), leaf('in', 'a', (0, 2)), leaf('notin', 'b', (1,)), leaf('having', 'arr', (2,)), leaf('nothaving', 'arr', (1, 2))):
+for l in (leaf('eq', 'a', (1,)), leaf('ne', 'b', (0,)), leaf('lt', 'a', (2,)), leaf('in', 'a', (0, 2)), leaf('notin', 'b', (1,)), leaf('ge', 'a', (2,)), leaf('in', 'b', (0, 2))):
     qs.append(query(1, 3, S, crit('one', l)))
-qs += [query(1, 3, S, crit('and', leaf('ge', 'a', (1,)), leaf('having', 'arr', (1,)))), query(1, 3, S, crit('or', leaf('eq', 'b', (2,)), leaf('eq', 'a', (0,))))]
+qs += [query(1, 3, S, crit('and', leaf('ge', 'a', (1,)), leaf('ne', 'b', (1,)))), query(1, 3, S, crit('or', leaf('eq', 'b', (2,)), leaf('eq', 'a', (0,))))]
 for asc in (True, False):
     for off, lim in ((0, 0), (0, 2), (1, 2), (3, 5), (7, 1)):
         qs.append(query(1, 3, S, crit('one', leaf()), 'time', asc, off, lim))
@@ -25,7 +25,7 @@ fams = []
 for name, flags in (('row', ['--measure-vectorized-enabled=false']), ('vec', ['--measure-vectorized-enabled=true']),
                     ('vec-batch2', ['--measure-vectorized-enabled=true', '--measure-vectorized-batch-size=2'])):
     fams.append(dict(name='measure-' + name, series=S, times=[1, 2, 3], versions=[1, 2], versioned=True, maxrows=1, maxtotal=3,
-                     maxops=3, graphops=0, sims=40 if c.quick else 400, simops=12, queries=qs, flags=flags, sim=dict(maxrows=3, maxtotal=8)))
+                     maxops=3, graphops=0, sims=40 if c.quick else 400, simops=12, queries=qs, flags=flags, index='inverted', tags_by_series=True, sim=dict(maxrows=3, maxtotal=8)))
 def nontrivial(st):
     ops = [x['last'].get('op') for x in st[1:]]
     return 'queryall' in ops and ('flush' in ops or 'merge' in ops)
